@@ -491,6 +491,14 @@ pub open spec fn steps_to<T: Eq + PartialOrd + Send + Sync, A: Clone>(g: Graph<T
         else { in_row(g.predecessors_vec@[g.nodes_map@[a] as int]@, g.nodes_map@[x]) || in_row(g.successors_vec@[g.nodes_map@[a] as int]@, g.nodes_map@[x]) }
 }
 
+// every step is backed by a stored edge list under the canonical position key of the two names (what get_edge looks up);
+// from the traversal invariant on undirected graphs (lemma_steps_are_stored_undirected, u_trav) and from the coherence of the index sets
+// on directed ones (lemma_steps_are_stored_directed, u_coh)
+pub open spec fn steps_are_stored<T: Eq + PartialOrd + Send + Sync, A: Clone>(g: Graph<T, A>) -> bool {
+    forall|a: T, x: T| #[trigger] steps_to(g, a, x) ==>
+        g.has_pair(g.canon(g.nodes_map@[a], g.nodes_map@[x]).0, g.canon(g.nodes_map@[a], g.nodes_map@[x]).1)
+}
+
 // `out` lists exactly the nodes one step away from the node named a
 pub open spec fn one_step_list<T: Eq + PartialOrd + Send + Sync, A: Clone>(g: Graph<T, A>, a: T, out: Seq<&Arc<Node<T, A>>>) -> bool {
     &&& forall|k: int| 0 <= k < out.len() ==> steps_to(g, a, (#[trigger] out[k]).name)
